@@ -199,6 +199,14 @@ func (n *nodeContext) validateValue(state vertexStatus) {
 			if bound == nil {
 				continue
 			}
+			if v == Value(n.node) {
+				// n.node was marked as a struct while it also collected a
+				// bound. Validating the bound would finalize n.node, which
+				// is what we are in the middle of, and recurse forever.
+				// The mismatch between the regular fields and the scalar
+				// constraint is reported when the arcs are completed.
+				continue
+			}
 			c := MakeRootConjunct(nil, bound)
 			if b := ctx.Validate(c, v); b != nil {
 				// TODO(errors): make Validate return boolean and generate
